@@ -131,8 +131,8 @@ def run(ck):
                    'checked against the libc on boundary and random patterns (coverage.float_oracle_on_libc); in nvref the oracle is OCaml Printf "%.17g" / float_of_string',
                    'probes/asm_probe.c (modules are built through nvm_add_string/nvm_add_function/nvm_append_code as nvm_deserialize does); '
                    'tools/props/c11_text.py (generators, judge_rt: equality of strings, function table and code)',
-                   'assembler buffer sizes 64/64/256/4096 (directive, mnemonic, function name, string) are literals inside assembler.c functions: '
-                   'hand-copied into NV.Isa.Asm and exercised at 63/64, 127/128, 255/256, 4095/4096 by the correspondence']
+                   'assembler buffer sizes 64/64/256 (directive, mnemonic, function name) are literals inside assembler.c functions: '
+                   'hand-copied into NV.Isa.Asm and exercised at 63/64, 127/128, 255/256 by the correspondence; the .string buffer is strlen(rest of line)+1, modelled as such and exercised at 4095/4096/5000']
     c11_text.text_half(ck, b, ref, aprobe)
     c11_text.replay_known(ck, aprobe)
     ck.cov['rule'] += ('; TEXT: every .nano under /repo/tests and /repo/examples that nano_virt --emit-nvm compiles + generated programs + synthetic modules '
